@@ -112,10 +112,11 @@ class CopiesKeepFilesValid(Contract):
     variant = "copies-keep-both-files-valid"
     symbolic = False
     has_native = True
+    native_shards = 6
     props = ("C02", "C12")
     bounded_scope = ("one object per kind in {points, curve, surface, grid2d, geoimage, block model, octree, drillhole, airborne TEM pair, DC/IP pair, tipper pair, group of objects} with data; "
                      "copy() and copy_from_extent() (box keeps part / keeps all / misses everything, plain and inverse) into {the same workspace, a group of another workspace, the other workspace itself}; "
-                     "after closing, both files satisfy every structural validity clause, and the source file's entity count is unchanged by copies that go elsewhere (exhaustive over the listed combinations: "
+                     "after closing, both files satisfy every structural validity clause, every stored node of the source (entities, data, the types they use with their value maps) is unchanged, and the source file's entity count is unchanged by copies that go elsewhere (exhaustive over the listed combinations: "
                      "12 kinds x 3 targets x (1 + 3 x 2) operations)")
 
     def native_cases(self, tier, rng):
@@ -136,6 +137,16 @@ class CopiesKeepFilesValid(Contract):
             with Workspace.create(src) as ws:
                 build(ws, case["kind"])
             n_src = _count(src)
+            with Workspace(src, mode="r") as ws:
+                own = set()
+                for e in list(ws.objects) + [g for g in ws.groups if g is not ws.root]:
+                    own |= {str(e.uid), str(e.entity_type.uid)}
+                    for c in getattr(e, "children", []):
+                        if hasattr(c, "entity_type"):
+                            own |= {str(c.uid), str(c.entity_type.uid)}
+            from contracts.surveys import IndependentSurveysFrame
+
+            before = IndependentSurveysFrame._digests(src, own)
             with Workspace.create(dst) as other:
                 ContainerGroup.create(other, name="clips")
             failed = None
@@ -155,6 +166,14 @@ class CopiesKeepFilesValid(Contract):
                 bad = wf_file(path)
                 if bad:
                     return f"after {_what(case)}{' (which raised ' + failed + ')' if failed else ''} the {label} file is not a valid geoh5 file: {bad}"
+            # frame: a copy (masked or not, wherever it goes) leaves every stored node of its source as it was --
+            # attributes, metadata, values, and the types the source uses (value maps included); only child lists of containers grow
+            after = IndependentSurveysFrame._digests(src, own)
+            for k in before:
+                b, a = dict(before[k]), dict(after.get(k, {}))
+                b.pop("members", None), a.pop("members", None)
+                if a != b:
+                    return f"after {_what(case)} the source's own node {k} changed in {[m for m in b if a.get(m) != b[m]]}"
             if case["target"] != "same" and _count(src) != n_src:
                 return f"after {_what(case)} the source file holds {_count(src)} entities instead of {n_src}"
             return None
